@@ -47,7 +47,7 @@ def main():
             "name": "lean4-proof+correspondence",
             "path": "lean/ (lake project NanoVerif), harness/ (Python), check",
             "serves_properties": [c["property_id"] for c in checks],
-            "kind_free_text": "Lean 4.33 theorems over executable models (lean/NanoVerif/Model, Props); constants/tables regenerated from /repo each run (harness/extract.py); JSON-lines correspondence driver (lean/Driver.lean) run against the real Python in-process; executable Lean checkers run on real outputs for failing-input search",
+            "kind_free_text": "Lean 4.33 theorems over executable models (lean/NanoVerif/Model, Props); constants/tables/inventories regenerated from /repo each run (harness/extract.py) and 22 arithmetic/branching functions re-translated from the current Python source to Lean (harness/py2lean.py -> Generated/Tr*.lean) with machine-checked equality to the hand models (Proofs/Tr*.lean); JSON-lines correspondence driver (lean/Driver.lean) run against the real Python in-process; executable Lean checkers run on real outputs for failing-input search",
         }],
         "checks": checks,
         "not_applicable": na,
